@@ -37,7 +37,71 @@ type c12Val struct {
 }
 
 type c12Case struct {
-	Data c12Val `json:"data"`
+	Data c12Val   `json:"data"`
+	Hist *c12Hist `json:"hist,omitempty"`
+}
+
+// A history: what happens in the same process after the six observations.
+//
+// The generator (gen/c12.py) writes an abstract history (conv / parse / mut / out
+// over numbered variables, Models/JsonHist.v) and realises it as a sequence of
+// SEGMENTS, each either
+//
+//	render : Engine.Render of one of the case's own templates (JavaScript
+//	         written by the generator; every buffered line is followed by a
+//	         line feed, which no JSON text contains) on engine number e with
+//	         page data {x: d, w: {k0.., v0.., p0.., t: <the direct text>}}
+//	api    : the same kind of steps done by a Go caller through the exported
+//	         functions only: pugjs.Convert, JSON{}.Parse, JSON{}.Stringify,
+//	         (*Map).Member / (*Array).Items to walk, (*Map).Assign,
+//	         (*Array).Push / Unshift / Pop / Shift / Splice to mutate;
+//	         its variables live on between api segments
+//
+// Every segment reports the texts it wrote, in order.
+type c12Sel struct {
+	K *string `json:"k,omitempty"` // hex key
+	I *int    `json:"i,omitempty"`
+}
+
+type c12Op struct {
+	O string   `json:"o"` // set | push | unshift | pop | shift | splice
+	P []c12Sel `json:"p"`
+	K string   `json:"k"` // hex, for set
+	V *c12Val  `json:"v,omitempty"`
+	N int      `json:"n"` // for splice
+}
+
+type c12Step struct {
+	I  string `json:"i"` // conv | parse | mut | out
+	V  int    `json:"v"`
+	U  int    `json:"u"`
+	Op *c12Op `json:"op,omitempty"`
+}
+
+type c12Line struct {
+	JS  string `json:"js"`
+	Out bool   `json:"out"`
+}
+
+type c12Seg struct {
+	Kind    string    `json:"k"` // render | api
+	Eng     int       `json:"e"`
+	Tpl     string    `json:"t"`
+	N       int       `json:"n"`       // number of texts the segment writes
+	Rebuild bool      `json:"rebuild"` // page data built anew from the case instead of the Go value used so far
+	Steps   []c12Step `json:"steps"`   // api
+}
+
+type c12Hist struct {
+	W       map[string]c12Val    `json:"w"`
+	Tpls    map[string][]c12Line `json:"tpls"`
+	Engines int                  `json:"engines"`
+	Segs    []c12Seg             `json:"segs"`
+}
+
+type c12SegObs struct {
+	Class string   `json:"class"`
+	Outs  []string `json:"outs"` // hex
 }
 
 type c12Text struct {
@@ -46,14 +110,15 @@ type c12Text struct {
 }
 
 type c12Obs struct {
-	Direct       c12Text `json:"direct"`
-	Raw          c12Text `json:"raw"`
-	Helper       c12Text `json:"helper"`
-	Esc          c12Text `json:"esc"`
-	RT           c12Text `json:"rt"`
-	Reparse      c12Text `json:"reparse"`
-	DecodedEqual bool    `json:"decoded_equal"` // encoding/json.Unmarshal(direct) deep-equals the source value
-	ParsedKind   string  `json:"parsed_kind"`   // dynamic type of JSON.Parse(direct): map | array | string | number | bool | nil | other
+	Direct       c12Text     `json:"direct"`
+	Raw          c12Text     `json:"raw"`
+	Helper       c12Text     `json:"helper"`
+	Esc          c12Text     `json:"esc"`
+	RT           c12Text     `json:"rt"`
+	Reparse      c12Text     `json:"reparse"`
+	DecodedEqual bool        `json:"decoded_equal"`  // encoding/json.Unmarshal(direct) deep-equals the source value
+	ParsedKind   string      `json:"parsed_kind"`    // dynamic type of JSON.Parse(direct): map | array | string | number | bool | nil | other
+	Hist         []c12SegObs `json:"hist,omitempty"` // one entry per segment of the history
 }
 
 func c12Build(v c12Val) (interface{}, error) {
@@ -222,6 +287,159 @@ func c12Tpl(nodes ...string) string {
 	return s + "]}"
 }
 
+// c12Walk follows a path through exported accessors only.
+func c12Walk(o pugjs.Object, path []c12Sel) pugjs.Object {
+	for _, s := range path {
+		if s.K != nil {
+			o = o.(*pugjs.Map).Member(unhx(*s.K))
+		} else {
+			o = o.(*pugjs.Array).Items()[*s.I]
+		}
+	}
+	return o
+}
+
+func c12Apply(root pugjs.Object, op *c12Op) error {
+	o := c12Walk(root, op.P)
+	var val pugjs.Object
+	if op.V != nil {
+		g, err := c12Build(*op.V)
+		if err != nil {
+			return err
+		}
+		val = pugjs.Convert(g)
+	}
+	switch op.O {
+	case "set":
+		o.(*pugjs.Map).Assign(unhx(op.K), val)
+	case "push":
+		o.(*pugjs.Array).Push(val)
+	case "unshift":
+		o.(*pugjs.Array).Unshift(val)
+	case "pop":
+		o.(*pugjs.Array).Pop()
+	case "shift":
+		o.(*pugjs.Array).Shift()
+	case "splice":
+		o.(*pugjs.Array).Splice(pugjs.Number(op.N))
+	default:
+		return fmt.Errorf("bad op %q", op.O)
+	}
+	return nil
+}
+
+// c12RunHist runs the segments one after the other in this process.
+func c12RunHist(h *c12Hist, spec c12Val, d interface{}, text string) ([]c12SegObs, error) {
+	n := h.Engines
+	if n < 1 {
+		n = 1
+	}
+	files := map[string]string{}
+	for name, lines := range h.Tpls {
+		nodes := make([]string, 0, 2*len(lines))
+		for _, l := range lines {
+			nodes = append(nodes, fmt.Sprintf(c12CodeNode, l.JS, l.Out, false))
+			if l.Out {
+				nodes = append(nodes, `{"type":"Text","val":"\n"}`)
+			}
+		}
+		files["template/page/"+name+".ast.json"] = c12Tpl(nodes...)
+	}
+	engines := make([]*pugjs.Engine, n)
+	for i := range engines {
+		dir, err := os.MkdirTemp("", "pv12h")
+		if err != nil {
+			return nil, err
+		}
+		defer os.RemoveAll(dir)
+		if err := os.MkdirAll(dir+"/template/page", 0o755); err != nil { // a history of api segments has no templates
+			return nil, err
+		}
+		if err := writeTree(dir, files); err != nil {
+			return nil, err
+		}
+		engines[i] = newEngine(dir, false, 0, nil)
+		if cls, msg := safeLoad(engines[i], ""); cls != clsOK {
+			return nil, fmt.Errorf("history templates do not load: %s %s", cls, msg)
+		}
+	}
+	ctx := context.Background()
+	vars := map[int]pugjs.Object{}
+	res := make([]c12SegObs, len(h.Segs))
+	for si, seg := range h.Segs {
+		data := d
+		if seg.Rebuild {
+			var err error
+			if data, err = c12Build(spec); err != nil {
+				return nil, err
+			}
+		}
+		switch seg.Kind {
+		case "render":
+			w := make(map[string]interface{}, len(h.W)+1)
+			for k, tv := range h.W {
+				g, err := c12Build(tv)
+				if err != nil {
+					return nil, err
+				}
+				w[k] = g
+			}
+			w["t"] = text
+			if seg.Eng < 0 || seg.Eng >= n {
+				return nil, fmt.Errorf("segment %d: no engine %d", si, seg.Eng)
+			}
+			r := safeRender(engines[seg.Eng], ctx, seg.Tpl, map[string]interface{}{"x": data, "w": w})
+			o := c12SegObs{Class: r.Class}
+			if r.Class == clsOK {
+				parts := strings.Split(unhx(r.Out), "\n")
+				if len(parts) != seg.N+1 || parts[seg.N] != "" {
+					o.Class = "bad_sections"
+				} else {
+					for _, p := range parts[:seg.N] {
+						o.Outs = append(o.Outs, hx(p))
+					}
+				}
+			}
+			res[si] = o
+		case "api":
+			var hardErr error
+			o := c12SegObs{Class: clsOK}
+			func() {
+				defer func() {
+					if r := recover(); r != nil {
+						o = c12SegObs{Class: clsPanic}
+					}
+				}()
+				for _, st := range seg.Steps {
+					switch st.I {
+					case "conv":
+						vars[st.V] = pugjs.Convert(data)
+					case "parse":
+						vars[st.V] = templatefunctions.JSON{}.Parse(templatefunctions.JSON{}.Stringify(vars[st.U]))
+					case "mut":
+						if err := c12Apply(vars[st.V], st.Op); err != nil {
+							hardErr = err
+							return
+						}
+					case "out":
+						o.Outs = append(o.Outs, hx(templatefunctions.JSON{}.Stringify(vars[st.V])))
+					default:
+						hardErr = fmt.Errorf("bad step %q", st.I)
+						return
+					}
+				}
+			}()
+			if hardErr != nil {
+				return nil, hardErr
+			}
+			res[si] = o
+		default:
+			return nil, fmt.Errorf("bad segment kind %q", seg.Kind)
+		}
+	}
+	return res, nil
+}
+
 func init() {
 	runners["C12"] = func(in json.RawMessage) (interface{}, error) {
 		var cases []c12Case
@@ -296,6 +514,13 @@ func init() {
 				}
 			} else {
 				o.Reparse = c12Text{Class: "skipped"}
+			}
+			if c.Hist != nil && o.Direct.Class == clsOK {
+				h, err := c12RunHist(c.Hist, c.Data, d, unhx(o.Direct.Out))
+				if err != nil {
+					return nil, fmt.Errorf("case %d: %w", i, err)
+				}
+				o.Hist = h
 			}
 			out[i] = o
 		}
